@@ -33,19 +33,19 @@ RULE = (
     "and bounds, motif and bin probabilities) from the step encodings; after every step every reported parameter value is "
     "compared with the record and lf.lnL with a newly built function holding the record as constants. calculator sub-check: a "
     "calculator made from a partly constrained function is driven through 2-12 change vectors (single and multiple changes, "
-    "reverts to the previous vector, reverts combined with a change of other coordinates as line searches emit, repeats, "
+    "reverts to the previous vector, reverts combined with a change of other coordinates as line searches emit, reverts of only a part of the previous step, repeats, "
     "values at and beyond the bounds, changes through calc.change with explicit (index, value) lists) and compared after every "
     "evaluation with a newly made calculator without undo. Non-trivial = a history of >= 4 steps containing a revert, or a "
     "postponed block / rejected change followed by another change; distinct = distinct case encodings."
 )
 ASSUMPTIONS = [
     "tolerance on log-likelihoods: 1e-9 * max(1, |lnL|) (the fresh-function comparison was bitwise exact in probes)",
-    "the fresh function is built from the harness record of intended settings; the record is re-read from the function only where a step does not determine the values: after optimise, after a GeneralStationary rejection, and for motif / bin probabilities as long as no step has set them (they derive from the alignment / the default)",
+    "the fresh function is built from the harness record of intended settings; the record is re-read from the function only where a step does not determine the values: after optimise, after a reported disagreement (so that one divergence is reported once), and for motif / bin probabilities as long as no step has set them (they derive from the alignment / the default; motif probabilities are re-derived from every new alignment until set_motif_probs is called)",
     "initial state: lengths as written in the tree, every rate parameter 1.0 (ParamDefn.default), bounds length [0, 10], rate parameters [1e-6, 1e6], rate_shape [0.01, 1e10] (class attributes of LengthDefn / RatioParamDefn / GammaDefn)",
     "bounds of a free rule follow _LeafDefn.assign_all: per scope group the widest bounds of the free settings currently in the group (class defaults when all are constant), overridden by lower= / upper=; an init outside them is moved to the nearer bound (the library warns 'Value of ... increased / decreased to keep within bounds'); lower > upper raises ValueError before anything is assigned",
     "a set_param_rule / set_motif_probs call that raises leaves the settings untouched (assign_all collects all settings before assigning any); one that returns has taken effect. So after an exception inside an updates_postponed block or an apply_param_rules batch the intended state is: inner changes before the failing one applied, the failing one and later ones not; 'Temporarily turn off calculation' means calculation is on again once the block is left, by whichever route",
     "rejections asserted: unknown edge -> InvalidScopeError and unknown dimension -> InvalidDimensionError (tests/test_recalculation.py), edge= together with edges= -> TreeError, crossed bounds -> ValueError, derived parameter -> ValueError ('not settable as it is derived from'), unknown parameter -> KeyError, motif probabilities summing to 2 -> ValueError",
-    "GeneralStationary may reject a rate combination (ParameterOutOfBoundsError) at whichever call first evaluates it. What lnL reports between such a rejection and the next accepted change is not specified and not compared; the record is re-read from the function and the history continues: from the next accepted change on the function must again agree with a fresh one. For GeneralStationary the fresh function is filled inside one updates_postponed block so that only the final combination is evaluated",
+    "GeneralStationary may reject a rate combination (ParameterOutOfBoundsError) at whichever call first evaluates it. The rejected change is assigned but not (completely) recalculated: what lnL and get_param_value report between such a rejection and the next accepted change is not specified and not compared; the record keeps the assigned values and the history continues: from the next accepted change on the function must again agree with the record and with a fresh function (a rejected top-level set_motif_probs stops the recording of motif probabilities, a rejected optimise ends the case). For GeneralStationary the fresh function is filled inside one updates_postponed block so that only the final combination is evaluated",
     "set_local_clock is only used on two tips attached to the same internal node other than the root (its docstring: 'only valid for tips connected to the same node'); both lengths become the mean of the current two",
     "set_time_heterogeneity applies one rule per (edge set, rate parameter of the model) with the given is_independent / is_constant / value / init / lower / upper; not used on the gamma-binned model (an independent kappa would also split between bins) nor on GeneralStationary",
     "an evaluation that raises inside the calculator (value outside the feasible region) is an allowed outcome; the next evaluation must again agree with a fresh calculator",
@@ -764,11 +764,11 @@ def calc_cases(draw):
         setup.append(draw(param_step(model, edges)))
     moves = []
     for _ in range(draw(st.integers(2, 12))):
-        kind = draw(st.sampled_from(["some", "some", "some", "one", "revert", "revert", "revert+some", "revert+some", "repeat", "all", "edge", "change"]))
+        kind = draw(st.sampled_from(["some", "some", "some", "one", "revert", "revert", "revert+some", "revert+some", "revert-part", "repeat", "all", "edge", "change"]))
         mv = {"kind": kind}
-        if kind == "revert+some":
+        if kind in ("revert+some", "revert-part"):
             mv["via_change"] = draw(st.booleans())
-        if kind in ("some", "one", "all", "edge", "change", "revert+some"):
+        if kind in ("some", "one", "all", "edge", "change", "revert+some", "revert-part"):
             mv["picks"] = draw(st.lists(st.integers(0, 40), min_size=1, max_size=1 if kind == "one" else 4))
             mv["fracs"] = draw(st.lists(st.floats(0.0, 1.0), min_size=len(mv["picks"]), max_size=len(mv["picks"])))
             mv["beyond"] = draw(st.integers(0, 9)) == 0
@@ -836,6 +836,18 @@ def exec_calc(case) -> Soft:
                     revert_plus = True
             reverted = True
             use_change = bool(mv.get("via_change")) and not pending_full
+        elif kind == "revert-part":
+            # only SOME of the coordinates changed by the previous step go back: the one-deep undo must not be taken
+            changed = [i for i in range(n) if cur[i] != prev[i]]
+            back = sorted({changed[p % len(changed)] for p in mv["picks"]}) if changed else []
+            if len(back) == len(changed):
+                back = back[:-1]
+            for i in back:
+                new[i] = prev[i]
+            if back:
+                s.cls("revert-part")
+            reverted = True
+            use_change = bool(mv.get("via_change")) and not pending_full
         elif kind == "repeat":
             pass
         else:
@@ -897,8 +909,8 @@ def exec_calc(case) -> Soft:
                 sig += "[after-rejected-vector]"
             elif kind == "revert":
                 sig += "[revert]"
-            elif kind == "revert+some":
-                sig += "[revert+some]"
+            elif kind in ("revert+some", "revert-part"):
+                sig += f"[{kind}]"
             s.fail(sig, f"{what}: incremental {got!r} != fresh calculator {want!r} (diff {got - want:.3e})")
         okc, tf = s.call("testfunction", lambda: float(calc.testfunction()))
         if okc and not close(tf, got):
